@@ -26,6 +26,9 @@ static Integer fromHex(const std::string& s) {
 static std::string H(const Integer& x) { return vp::hex(x.get_mpz_const()); }
 static std::string H(long long x) { return vp::hex_ll(x); }
 
+// the generators use GMP directly, never the library under test
+static int gj(const Integer& a, const Integer& n) { return mpz_jacobi(a.get_mpz_const(), n.get_mpz_const()); }
+
 static IntNumTheoDom<>* NT;
 static IntSqrtModDom<>* SQ;
 
@@ -62,6 +65,11 @@ static void run_case(const std::vector<std::string>& tok) {
         else if (k == "isprimroot") { add(H((long long)NT->is_prim_root(Z(0), Z(1)))); }
         else if (k == "lowprimroot") { Integer r; NT->lowest_prim_root(r, Z(0)); add(H(r)); }
         else if (k == "primroot") { Integer r; NT->prim_root(r, Z(0)); add(H(r)); }
+        else if (k == "primrootpk") {       // prim_root(p^k) / prim_root(2 p^k); the further arguments (prime factors of phi(n)) are for the driver
+            Integer n; pow(n, Z(0), (uint64_t)a.W(1));
+            if (a.W(2)) n *= 2;
+            Integer r; NT->prim_root(r, n); add(H(r));
+        }
         else if (k == "primrootp") { Integer r; NT->prim_root_of_prime(r, Z(0)); add(H(r)); }
         else if (k == "probprimroot") { Integer r; double e; NT->probable_prim_root(r, e, Z(0)); add(H(r)); }
         else if (k == "primelem") { Integer r; NT->prim_elem(r, Z(0)); add(H(r)); }
@@ -135,7 +143,7 @@ struct Gen {
     Integer any_prime(unsigned b) { return prime_class(b, 1 + 2 * (unsigned)rng.below(8), 16); }
     Integer residue(const Integer& n) { Integer y = below(n); y *= y; Integer::modin(y, n); return y; }
     Integer nonresidue_prime(const Integer& p) {
-        for (;;) { Integer a = below(p); if (jacobi(a, p) == -1) return a; }
+        for (;;) { Integer a = below(p); if (gj(a, p) == -1) return a; }
     }
 };
 
@@ -180,7 +188,23 @@ static void gen_numtheo(Gen& g) {
     C({"phi", "0"}); C({"phi", "-5"});
     // prim_root where the candidate found modulo p is NOT a primitive root modulo p^2 (5 modulo 40487, 14-free small cases do not exist
     // below 4096): exercises the `A += p` correction and the 2p^k adjustment; judged by the criterion of is_prim_root_iff
-    for (const char* nn : {"61b429f1", "c36853e2"}) C({"primroot", nn});      // 40487^2, 2*40487^2
+    // The pairs (p, g) with g the root the search returns and g^(p-1) = 1 (mod p^2): below 10^7 only (40487, 5) (computed with the
+    // model: the base-2/3/6 Wieferich primes 1093, 3511, 11, 1006003, 66161, 534851, 3152573 and 20771 (base 5) get another root);
+    // the next one is (6692367337, 5).  k = 1..5 and the forms p^k, 2p^k.  k >= 3 distinguishes "modulo p^2" from "modulo p^k".
+    for (uint64_t pp : {40487ULL, 6692367337ULL}) {
+        std::vector<std::string> fl;                       // prime factors of p-1 (trial division)
+        for (auto& pe : factor_small(pp - 1)) fl.push_back(H((long long)pe.first));
+        for (unsigned k = 1; k <= 5; ++k)
+            for (int two = 0; two < 2; ++two) {
+                Integer n; pow(n, Integer((uint64_t)pp), (uint64_t)k);
+                if (two) n *= 2;
+                if (pp < 1000000) C({"primroot", H(n)});   // small enough for the model's own trial-division factor lists
+                std::vector<std::string> l = {"primrootpk", H((long long)pp), H((long long)k), two ? "1" : "0"};
+                l.insert(l.end(), fl.begin(), fl.end());
+                if (k > 1) l.push_back(H((long long)pp));
+                CV(l);
+            }
+    }
     // --- order / is_prim_root / isorder
     for (uint64_t n = 2; n <= N; ++n) {
         if (!T && n > 768 && g.rng.below(4) != 0) continue;
@@ -249,6 +273,24 @@ static void gen_symbols(Gen& g) {
     }
     for (long long n = -40; n <= 40; ++n)
         for (long long x = -20; x <= 20; ++x) C({"kronecker", H(x), H(n)});
+    // moduli around the machine-word boundaries (single-limb v >= 2^63 does not fit a signed long; 2^31, 2^32, 2^64 likewise)
+    for (unsigned sh : {31u, 32u, 63u, 64u, 65u, 127u, 128u}) {
+        Integer base(1); base <<= (uint64_t)sh;
+        std::vector<Integer> ns;
+        for (int d = -9; d <= 9; d += 2) ns.push_back(base + d);          // odd numbers around 2^sh
+        for (unsigned c = 1; c < 16; c += 6) ns.push_back(g.prime_class(sh + 1, c, 16));   // primes in [2^sh, 2^(sh+1))
+        { Integer pr = base; do { pr -= 1; } while (!mpz_probab_prime_p(pr.get_mpz_const(), 30)); ns.push_back(pr); }   // largest prime below 2^sh
+        for (auto& n : ns) {
+            bool isp = mpz_probab_prime_p(n.get_mpz_const(), 30) != 0;
+            std::vector<Integer> xs = {Integer(0), Integer(1), Integer(2), Integer(-1), Integer(3), Integer(5), n - 1, n + 2, g.below(n), g.below(n), -g.below(n), g.residue(n)};
+            for (auto& x : xs) {
+                C({"jacobi", H(x), H(n)});
+                C({"kronecker", H(x), H(n)});
+                C({"kronecker", H(x), H(-n)});
+                if (isp) C({"legendre", H(x), H(n)});
+            }
+        }
+    }
     for (int it = 0; it < (T ? 600 : 150); ++it) {
         unsigned b = 20 + (unsigned)g.rng.below(300);
         Integer n = g.bits(b); if (!isOdd(n)) n += 1;
@@ -321,10 +363,10 @@ static void gen_sqrt(Gen& g) {
             // s non-residue with s-1 a residue
             // s non-residue with s-1 a residue, k a non-residue (the documented calling context)
             for (uint64_t s = 2; s < p; ++s)
-                if (jacobi(Integer((uint64_t)s), Integer((uint64_t)p)) == -1 && jacobi(Integer((uint64_t)(s - 1)), Integer((uint64_t)p)) == 1) {
+                if (gj(Integer((uint64_t)s), Integer((uint64_t)p)) == -1 && gj(Integer((uint64_t)(s - 1)), Integer((uint64_t)p)) == 1) {
                     for (int i = 0; i < 3; ++i) {
                         uint64_t kk = 1 + g.rng.below(p - 1);
-                        while (jacobi(Integer((uint64_t)kk), Integer((uint64_t)p)) != -1) kk = 1 + kk % (p - 1);
+                        while (gj(Integer((uint64_t)kk), Integer((uint64_t)p)) != -1) kk = 1 + kk % (p - 1);
                         C({"sosqnr", H((long long)kk), H((long long)s), H((long long)p)});
                     }
                     if (g.rng.below(2) == 0) break;
@@ -352,13 +394,26 @@ static void gen_sqrt(Gen& g) {
             }
         }
     // primes with a large 2-part in p-1 (long Tonelli–Shanks chains): p = q 2^e + 1
-    for (unsigned e : {5u, 8u, 16u, 33u, 64u, 90u}) {
-        for (int rep = 0; rep < (T ? 4 : 1); ++rep) {
-            Integer q = g.exact_bits(20 + (unsigned)g.rng.below(60)); if (!isOdd(q)) q += 1;
+    // a = -1 and the residues of small 2-power order make the exponent 2^(r-m-1) of the main loop as large as 2^(e-2)
+    // (beyond a machine word once e >= 66); the first primes are 3*2^66+1, 5*2^127+1, 3*2^189+1 (q = 1 start below)
+    for (unsigned e : {5u, 8u, 16u, 33u, 63u, 64u, 65u, 66u, 67u, 90u, 127u, 130u, 189u}) {
+        for (int rep = 0; rep < (T ? 4 : 2); ++rep) {
+            Integer q = rep == 0 ? Integer(1) : g.exact_bits(20 + (unsigned)g.rng.below(60));
+            if (!isOdd(q)) q += 1;
             Integer p;
             for (;; q += 2) { p = q; p <<= (uint64_t)e; p += 1; if (mpz_probab_prime_p(p.get_mpz_const(), 30)) break; }
-            for (int i = 0; i < 4; ++i) C({"sqrtp", H(g.residue(p)), H(p)});
+            for (int i = 0; i < 3; ++i) C({"sqrtp", H(g.residue(p)), H(p)});
             C({"sqrtp", H(g.nonresidue_prime(p)), H(p)});
+            C({"sqrtp", H(p - 1), H(p)});
+            C({"sqrtp", "-1", H(p)});
+            // residues whose odd-part power has order 2^j, j = 1..4: a = z^(2^(e-j)) with z = nonresidue^q
+            { Integer z, nr = g.nonresidue_prime(p); powmod(z, nr, q, p);
+              for (unsigned j = 1; j <= 4 && j < e; ++j) {
+                  Integer ex(1); ex <<= (uint64_t)(e - j);
+                  Integer aa; powmod(aa, z, ex, p);
+                  C({"sqrtp", H(aa), H(p)});
+                  C({"sqrtp", H((aa * g.residue(p) % p) ), H(p)});
+              } }
             C({"brillhart", H(p)});
         }
     }
@@ -483,6 +538,7 @@ static void gen_sqrt(Gen& g) {
 static char WD_LINE[1 << 16];
 static size_t WD_LEN = 0;
 static char WD_SKIP[32];
+static char WD_EVENTS[32];
 static char* WD_ARGV[12];
 static void on_alarm(int sig) {
     if (sig != SIGALRM && WD_LEN > 9) memcpy(WD_LINE + WD_LEN - 8, "CRASH  \n", 8);   // abort()/SIGFPE inside the library: same treatment
@@ -494,11 +550,12 @@ static void on_alarm(int sig) {
 int main(int argc, char** argv) {
     // positional: tier seed [group|all] ; options: --skip N  --file PATH
     std::string tier = argc > 1 ? argv[1] : "quick", seeds = argc > 2 ? argv[2] : "1", only = "all", file;
-    size_t skip = 0;
+    size_t skip = 0, events = 0;
     int pos = 0;
     for (int i = 1; i < argc; ++i) {
         std::string t = argv[i];
         if (t == "--skip" && i + 1 < argc) skip = strtoull(argv[++i], nullptr, 10);
+        else if (t == "--events" && i + 1 < argc) events = strtoull(argv[++i], nullptr, 10);
         else if (t == "--file" && i + 1 < argc) file = argv[++i];
         else { ++pos; if (pos == 3) only = t; }
     }
@@ -542,6 +599,15 @@ int main(int argc, char** argv) {
     int n = 0;
     WD_ARGV[n++] = (char*)a0.c_str(); WD_ARGV[n++] = (char*)a_tier.c_str(); WD_ARGV[n++] = (char*)a_seed.c_str();
     WD_ARGV[n++] = (char*)a_only.c_str(); WD_ARGV[n++] = (char*)"--skip"; WD_ARGV[n++] = WD_SKIP;
+    WD_ARGV[n++] = (char*)"--events"; WD_ARGV[n++] = WD_EVENTS;
+    snprintf(WD_EVENTS, sizeof WD_EVENTS, "%zu", events + 1);
+    // a tree on which many cases hang would cost (time limit) x (number of cases): give up after 20 TIMEOUT/CRASH events
+    // (each of them is already a reported failing input); the non-zero exit status tells the check that the run is incomplete
+    if (events >= 20) {
+        fputs("harness = ABORTED after 20 TIMEOUT/CRASH events\n", stdout); fflush(stdout);
+        if (!file.empty()) unlink(file.c_str());
+        return 4;
+    }
     if (!a_file.empty()) { WD_ARGV[n++] = (char*)"--file"; WD_ARGV[n++] = (char*)a_file.c_str(); }
     WD_ARGV[n] = nullptr;
     for (size_t i = skip; i < CASES.size(); ++i) {
